@@ -217,8 +217,8 @@ func (e *env) c10UCI(games int) {
 			pw.Write([]byte(cmd + "\ngo depth 1\n"))
 			select {
 			case <-sink.best:
-			case <-time.After(5 * time.Second):
-				e.r.Fail(common.Mismatch{Property: "C10", Kind: "broken-correspondence", Ops: append([]string{}, sent...), Impl: "no bestmove within 5 s", Model: "bestmove"})
+			case <-time.After(60 * time.Second):
+				e.r.Fail(common.Mismatch{Property: "C10", Kind: "broken-correspondence", Ops: append([]string{}, sent...), Impl: "no bestmove within 60 s", Model: "bestmove"})
 				ok = false
 			}
 			if !ok {
